@@ -1314,7 +1314,7 @@ func bType(intp *Interpreter) error {
 	default:
 		return intp.e(eTypecheck, "type: not implemented for %T", obj)
 	}
-	intp.Stack = append(intp.Stack, tp)
+	intp.Stack[len(intp.Stack)-1] = tp
 	return nil
 }
 
